@@ -37,6 +37,9 @@ def tasks(tier, seed):
                 out.append(('vt.props.c06', 't3_twostep', {'seed': seed, 'k': k, 'backend': 'T3', 'producer': p,
                                                            'mutator': m, 'sig': '%s->%s' % (p, m)}))
     out += common.extra_tasks(PID, tier, seed)
+    # differential test of the NumPy/SciPy contract table the E1 frame / freshness proofs rest on (assumption A-numpy)
+    from vt.e1 import nptest
+    out += nptest.tasks(tier, seed)
     return out
 
 
